@@ -258,7 +258,10 @@ class Op(object):
 def _idx(sel, n):
     return {'first': [0], 'last': [n - 1], 'firstlast': [0, n - 1],
             'all': list(range(n)), 'none': [], 'mid': [n // 2],
-            'lastfirst': [n - 1, 0]}[sel]
+            'lastfirst': [n - 1, 0],
+            # unsorted, as a LongArray: the swap-with-last removal scheme
+            # depends on the indices being sorted first
+            'unsorted': [n - 1, 1, n - 2] if n >= 4 else [n - 1, 0]}[sel]
 
 
 def build_ops():
@@ -307,13 +310,14 @@ def build_ops():
         M.recs.extend(M.new_recs(1, given))
 
     # -- remove_particles ---------------------------------------------------
-    for sel in ('first', 'last', 'firstlast', 'all', 'none', 'mid'):
+    for sel in ('first', 'last', 'firstlast', 'all', 'none', 'mid',
+                'lastfirst', 'unsorted'):
         def mk(sel):
             def f(w, m, k):
                 A, M = w[0], m[0]
                 n = len(M.recs)
                 idx = _idx(sel, n)
-                if sel == 'mid':
+                if sel in ('mid', 'unsorted'):
                     from cyarray.api import LongArray
                     la = LongArray(len(idx))
                     la.set_data(np.array(idx, dtype=np.int64))
@@ -324,7 +328,8 @@ def build_ops():
                           if i not in set(idx)]
             return f
         en = (lambda w, m: True) if sel == 'none' else \
-            ((lambda w, m: len(m[0].recs) >= 2) if sel in ('firstlast', 'mid')
+            ((lambda w, m: len(m[0].recs) >= 2) if sel in (
+                'firstlast', 'mid', 'lastfirst', 'unsorted')
              else (lambda w, m: len(m[0].recs) >= 1))
         ops.append(Op('remove_' + sel, en, mk(sel)))
 
